@@ -30,7 +30,8 @@ Record proto := mkProto {
   pkids : list kind     (* @media / @page: kinds of the statements in the block *)
 }.
 
-Inductive exn := IndexSizeErr | HierarchyRequestErr | NoModificationAllowedErr | NamespaceErr | SyntaxErr.
+Inductive exn := IndexSizeErr | HierarchyRequestErr | NoModificationAllowedErr | NamespaceErr | SyntaxErr
+               | InvalidModificationErr.
 Inductive result :=
 | Ret (v : option nat)      (* returned index / None *)
 | Exc (e : exn)             (* raised *)
@@ -240,6 +241,18 @@ Fixpoint media_children (rx : bool) (ks : list kind) : option (list kind) :=
     end
   end.
 
+(* the exception of the first refused child: '@variables' is in the atrule handler's tuple but its token type
+   VARIABLES_SYM is not in the @media productions, so it reaches the default handler `ruleset`, whose
+   CSSStyleRule.cssText raises InvalidModificationErr ("No style rule") *)
+Fixpoint media_exn (ks : list kind) : exn :=
+  match ks with
+  | [] => HierarchyRequestErr
+  | k :: r => match media_child k with
+              | None => if kind_beq k VARIABLES_RULE then InvalidModificationErr else HierarchyRequestErr
+              | _ => media_exn r
+              end
+  end.
+
 (* children of an @page block: margin rules only, merged per margin name (one name in the alphabet) *)
 Definition page_children (ks : list kind) : list kind :=
   if existsb (kind_beq MARGIN_RULE) ks then [MARGIN_RULE] else [].
@@ -280,7 +293,7 @@ Definition parse_step (rx : bool) (st : pstate) (p : proto) : pstate + exn :=
           else if kind_beq k MEDIA_RULE then
             match media_children rx (pkids p) with
             | Some c => inl (Some (mkRule k 0 0 0 [] c))
-            | None => inr HierarchyRequestErr
+            | None => inr (media_exn (pkids p))
             end
           else if kind_beq k PAGE_RULE then inl (Some (mkRule k 0 0 0 [] (page_children (pkids p))))
           else inl (Some (mkRule k 0 0 (penc p) [] [])) in
@@ -450,7 +463,7 @@ Definition container_text (rx : bool) (c : rule) (ks : list kind) : rule * resul
   if kind_beq (rkind c) MEDIA_RULE then
     match media_children rx ks with
     | Some kids => (set_kids c kids, Ret None)
-    | None => (c, Exc HierarchyRequestErr)
+    | None => (c, Exc (media_exn ks))
     end
   else if forallb (kind_beq MARGIN_RULE) ks then (set_kids c (page_children ks), Ret None)
   else (c, Unmodelled).
